@@ -1082,13 +1082,14 @@ class ChannelFactory:
             # state transition to "closed" state
             if remoteerror:
                 channel._remoteerrors.append(remoteerror)
-            # the callback gets its endmarker before waitclose() can return,
-            # and the state changes before the ENDMARKER is queued: a
-            # receiver that sees the ENDMARKER must find the channel closed
+            # whoever learns about the end -- a callback through its endmarker,
+            # a receiver through the ENDMARKER, waitclose() -- must find the
+            # channel closed, and the callback gets its endmarker before
+            # waitclose() can return
             queue = channel._items
-            self._no_longer_opened(id)
             if not sendonly:  # otherwise #--> "sendonly"
                 channel._closed = True  # --> "closed"
+            self._no_longer_opened(id)
             channel._receiveclosed.set()
             if queue is not None:
                 queue.put(ENDMARKER)
